@@ -297,6 +297,13 @@ def sn_rules(C, P):
         if s['k'] == 'assign' and not s['dst']['p'] and s['rv']['k'] == 'agg' and s['rv'].get('var') == 'Some' and s['rv'].get('adt') == 'Option':
             if set(pl) & forward_taint(es, {s['dst']['l']}, through_refs=False):
                 somes.append(pos)
+    if not somes:
+        # the value is computed by an inlined helper that returns Result<Option<..>>: follow prev_path back through the `?`
+        from flow import origins_through_try
+        for l_ in pl:
+            for og in origins_through_try(es, {'l': l_, 'p': []}):
+                if og[0] not in ('param', 'const', 'place') and isinstance(og[1], dict) and og[1].get('k') == 'assign' and og[1]['rv']['k'] == 'agg' and og[1]['rv'].get('var') == 'Some':
+                    somes.append(og[0])
     eqs = calls(es, r'ElementName as .*PartialEq>::eq$')
     C.check(bool(somes) and all(dominated_by(es, p, eqs) for p in somes), 'C04-PAIR-index', 'Element::set_character_data_internal|prev_path-only-for-shortname', 'prev_path is set without the SHORT-NAME test')
 
@@ -333,7 +340,22 @@ def unique_rules(C, P):
     g = calls(mu, gp)
     wr = [o['pos'] for o in E.content_ops(mu) if o['op'] == 'push']
     exits = E.ok_exit_positions(mu)
-    ok = len(g) == 1 and bool(E.loops_containing(mu, g)) and bool(exits) and all(some_edge_blocked(mu, g[0], x) for x in exits) and all(mu.pos_dominates(g[0], x) for x in wr)
+    # every Ok exit is reached over the "free" outcome of a lookup, and after a "taken" outcome no exit is reached without another lookup
+    # (one lookup in a loop, or a first lookup with an early return plus a loop over further candidates)
+    free_edges, taken_starts = set(), []
+    for gpos in g:
+        t_ = mu.blocks[gpos[0]]['term']
+        taint = forward_taint(mu, {t_['dst']['l']}, through_refs=True)
+        for pos, tt in mu.iter_calls():
+            if call_matches(tt, r'Option::<.*>::is_some$|Option::<T>::is_some$') and any(is_local_op(a) and a['l'] in taint for a in tt['args']):
+                sw_ = switch_edges_on_call_result(mu, pos)
+                if sw_ and set(sw_[1].keys()) == {'0'}:
+                    free_edges.add((sw_[0], sw_[1]['0']))
+                    taken_starts.append((sw_[2], 0))
+    ok = (bool(g) and len(taken_starts) == len(g) and bool(exits) and any(E.loops_containing(mu, [x]) for x in g)
+          and must_pass(mu, (0, 0), exits, through=(), avoid_edges=free_edges)
+          and all(must_pass(mu, ts_, exits, through=set(g)) for ts_ in taken_starts)
+          and all(any(mu.pos_dominates(x_, w_) for x_ in g) for w_ in wr))
     C.check(ok, 'C04-MUST-unique', 'make_unique_item_name|loops-until-free', 'make_unique_item_name can return a name whose path is taken')
     es = P.get('Element::set_character_data_internal')
     wr = [o['pos'] for o in E.content_ops(es) if o['op'] == 'push' and o['item'] == 'CharacterData']
@@ -387,8 +409,9 @@ def prefix_rules(C, P):
             if len(t['args']) > 1 and const_val(t['args'][1]) is not None:
                 continue  # stripping a literal (radix prefixes, "autosar"): not a path re-key
             n += 1
-            if b.short in exempt:
-                C.ok('C04-DEV-prefix', '%s|strip_prefix|reviewed#%d' % (b.short, n), exempt[b.short])
+            base_fn = b.short.split('::{')[0]
+            if base_fn in exempt:
+                C.ok('C04-DEV-prefix', '%s|strip_prefix|reviewed#%d' % (base_fn, n), exempt[base_fn])
                 continue
             # the Some edge must pass is_empty and starts_with('/') before any map insert / content write / format use
             sinks = [o['pos'] for o in E.ident_ops(b) + E.reforig_ops(b) if E.is_mutating(o)] + [o['pos'] for o in E.content_ops(b)]
